@@ -346,6 +346,21 @@ func (x *Exec) prepass() {
 						addAnchor("return")
 					case *ast.SendStmt:
 						addAnchor("send")
+					case *ast.AssignStmt:
+						as := m.(*ast.AssignStmt)
+						if len(as.Lhs) == 1 {
+							if id, ok := as.Lhs[0].(*ast.Ident); ok && id.Name != "_" {
+								k := "assign:" + id.Name
+								anchorCount[k]++
+								x.anchors[s] = append(x.anchors[s], fmt.Sprintf("%s#%d", k, anchorCount[k]))
+							}
+						}
+					case *ast.SwitchStmt:
+						anchorCount["switch"]++
+						x.anchors[s] = append(x.anchors[s], fmt.Sprintf("switch#%d", anchorCount["switch"]))
+					case *ast.IfStmt:
+						anchorCount["if"]++
+						x.anchors[s] = append(x.anchors[s], fmt.Sprintf("if#%d", anchorCount["if"]))
 					}
 					walk(m)
 					stmtStack = stmtStack[:len(stmtStack)-1]
@@ -418,6 +433,7 @@ func (x *Exec) run() {
 	}
 	x.baseNames = map[string]Val{}
 	env := &Env{info: info}
+	x.codeEnv = env
 	cpos := fi.Body.Lbrace + 1
 	// ghost declarations
 	if x.con != nil {
@@ -460,7 +476,15 @@ func (x *Exec) run() {
 		x.obligs = append(x.obligs, o)
 	}
 	x.entry = st.clone()
+	x.usedPoints = map[int]bool{}
 	fl := x.execBlock(fi.Body.List, st, env)
+	if x.con != nil && !x.inlineMode {
+		for i, p := range x.con.Points {
+			if !x.usedPoints[i] {
+				panic(unsupported("contract refers to program point " + p.When + " " + p.Anchor + " which does not exist (or is unreachable) in " + fi.Key))
+			}
+		}
+	}
 	final := fl.ret
 	if fi.Sig.Results().Len() == 0 {
 		final = x.merge(final, fl.normal)
